@@ -197,13 +197,13 @@ def scan(state, groups, tid):
                 stats["jumps"] += 1
         else:
             pat += "R"
-            wide = (c1 - c0) >= 14
+            wide = (c1 - c0) >= 30                   # (interpolation across a fan of n cells is good to about 1/n^2)
             idx = np.linspace(c0 + 3, c1 - 3, 7).astype(int) if wide else np.array([(c0 + c1) // 2])
             xi_all = (x - xd0) / t
             for q in idx:
                 pt_ = {k: float(P[k][q]) for k in NAMES}
                 bal = eosbal(pt_, g)
-                if "PDE" in groups and wide:
+                if "PDE" in groups and wide and pt_["p"] >= 2e-3 * scale["p"]:
                     sl_ = slice(q - 2, q + 3)
                     d = {k: np.polyfit(xi_all[sl_] - xi_all[q], P[k][sl_], 2)[1] for k in NAMES}     # d/dxi by a local quadratic
                     w = pt_["u"] - xi_all[q]
@@ -216,7 +216,7 @@ def scan(state, groups, tid):
                     xq = xd0 + xi_all[q] * 1.5 * t
                     simv = {k: float(np.interp(xq, Pp["x"], Pp[k])) for k in NAMES}
                     bal["similar"] = E.e8([max(abs(simv[k] - pt_[k]) / scale[k] for k in NAMES), 0.0], 1.0)
-                ev.append({"k": "Pt", "tid": tid, "reg": fans[i], "fin": True, "smooth": bool("PDE" in groups and wide), "x": E.sl(abs(x[q] - xd0) + 1e-300),
+                ev.append({"k": "Pt", "tid": tid, "reg": fans[i], "fin": True, "smooth": bool("mass" in bal), "x": E.sl(abs(x[q] - xd0) + 1e-300),
                            "v": {k: E.sl(v) for k, v in pt_.items()}, "bal": bal})
                 stats["points"] += 1
     stats["pattern"] = pat
